@@ -236,6 +236,8 @@ def check_gather(ck: Checker, f: Func, *, legacy: bool = False, rule: str = "R-G
                 want = tgt if legacy else f"{tgt}.node"
                 if len(ys) != 1 or ys[0].value is None or norm(unwrap_cast(ys[0].value)) != want or len(lp.body) != 1:
                     bad = f"yields {[norm(y.value) for y in ys if y.value is not None]}"
+                elif not (isinstance(lp.body[0], ast.Expr) and lp.body[0].value is ys[0]):
+                    bad = "does not yield every record of the stream (the yield is conditional)"
     if bad:
         ck.violation(rule, f, fn, what, construct=f"gather: {bad}")
     else:
@@ -270,6 +272,8 @@ def run(ck: Checker) -> None:
     ck.guard("R-PRESENCE", lambda: T.r_presence(ck))
     ck.guard("R-ENUM-SHAPE", lambda: T.r_enum_shape(ck))
     ck.guard("R-ORDER-KEY", lambda: T.r_order_key(ck))
+    from .c11 import r_child_kind
+    ck.guard("R-CHILD-KIND", lambda: r_child_kind(ck))
     ck.require_count("R-WORKLIST", 3 + 3 + 6)
     ck.require_count("R-CTRLDEP", 3)
     ck.require_count("R-GATHER", 4)
